@@ -77,6 +77,51 @@ def status_signal_table(ctx, rule):
     ctx.ok(rule, "status-signal-table", "Signal::from(i32) maps 1,2,3,9,10,12,15 to their first-class signals and every other number in 0..=64 to Custom")
 
 
+def fromstr_table(ctx, rule):
+    """Signal::from_str: both name tables get the input as written, the unix table only when the Windows control names did not match
+    (`or_else` closure, or a match / if-let on the first result) - shared with C06 (--stop-signal)"""
+    facts = ctx.facts
+    fs = ctx.anchor_one(rule, "<Signal as FromStr>::from_str", facts.fns_matching(r"watchexec_signals::Signal as core::str::traits::FromStr>::from_str$"))
+    bodies = [fs] + [c for c in facts.descendants(fs)]
+    wargs, uargs, uin = [], [], []
+    for g in bodies:
+        ctx.saw_fn(g)
+        for c, n in thir.calls_in(thir.root(g)):
+            if c.endswith("Signal::from_windows_str"):
+                wargs.append([pathx.desc(a).lstrip("^") for a in n["a"]])
+            elif c.endswith("Signal::from_unix_str"):
+                uargs.append([pathx.desc(a).lstrip("^") for a in n["a"]])
+                uin.append(g)
+    asgiven = wargs == [["s"]] and uargs == [["s"]]
+    ctx.require(asgiven, rule, "fromstr-passes-input", "both parsers get the input string itself, once each", fs.loc(fs.line), detail="%s / %s" % (wargs, uargs),
+                fail="Signal::from_str hands a rewritten string to one of the two name tables (%s / %s): a prefix-stripped unix name can land on a Windows control name (SIGSTOP -> STOP -> ForceStop)" % (wargs, uargs))
+    fallback = False
+    if asgiven:
+        top = pathx.desc(thir.peel(thir.root(fs)))
+        if uin[0] is not fs:
+            fallback = top == "Result::or_else(Signal::from_windows_str(s), closure)"
+        else:
+            # the unix table is consulted only on paths that saw the first result be an Err
+            fallback = True
+            ps = pathx.Enum(interesting=lambda d_: d_.endswith(("from_unix_str", "from_windows_str"))).paths(thir.root(fs))
+            for q in ps:
+                names = [e[1] for e in q.ev if e[0] == "call"]
+                if not any(n_.endswith("from_unix_str") for n_ in names):
+                    continue
+                iu = [k for k, e in enumerate(q.ev) if e[0] == "call" and e[1].endswith("from_unix_str")][0]
+                ev_err = False
+                for e in q.ev[:iu]:
+                    if e[0] in ("arm", "iflet") and "from_windows_str(s)" in str(e[1]):
+                        pats = " ".join(str(x) for x in (e[2] if isinstance(e[2], (tuple, list)) else (e[2],)))
+                        hit = bool(e[3]) if e[0] == "iflet" else True
+                        if ("Err" in pats and hit) or ("Ok" in pats and not hit):
+                            ev_err = True
+                fallback = fallback and ev_err
+            fallback = fallback and len(ps) >= 2
+    ctx.require(fallback, rule, "fromstr-unix-fallback", "from_unix_str is consulted only when from_windows_str failed", fs.loc(fs.line),
+                fail="the unix name table is no longer just the fallback of the Windows control names")
+
+
 def run(ctx):
     ctx.level = "proof"
     ctx.exhaustive = True
@@ -228,19 +273,28 @@ def run(ctx):
                 allnam.append((c, bi, t))
         ctx.floor("R19.3", "NixSignal::from_str sites (name and SIG+name)", len(allnam), 2)
         sig_prefixed = 0
+        PT = VALUE_CALLS + ("alloc::fmt::format", "core::hint::must_use")
+
+        def is_upper(fn, x):
+            """the atom is the result of to_ascii_uppercase - directly, or a local of the enclosing function captured by the closure (`let upper = ..`)"""
+            if x.kind == "call":
+                return fn.blocks[x.data].term.callee.is_("to_ascii_uppercase")
+            if x.kind == "upvar" and fn is not u:
+                pls = u.debug_place(x.data)
+                return bool(pls) and all(any(is_upper(u, y) for y in origins(u, pl, passthrough=PT)) for pl in pls)
+            return False
         for fn, bi, t in allnam:
-            ats = origins(fn, t.args[0], passthrough=VALUE_CALLS + ("alloc::fmt::format", "core::hint::must_use"))
+            ats = origins(fn, t.args[0], passthrough=PT)
             okup = False
             for a in ats:
-                if a.kind == "call":
+                if is_upper(fn, a):
+                    okup = True
+                elif a.kind == "call":
                     ct = fn.blocks[a.data].term
-                    if ct.callee.is_("to_ascii_uppercase"):
-                        okup = True
-                    elif ct.callee.is_("core::fmt::Arguments::new"):
+                    if ct.callee.is_("core::fmt::Arguments::new"):
                         # format!("SIG{}", upper): literal piece SIG, and the formatted argument is the upper-cased string
                         pieces, inputs = format_inputs(fn, ct)
-                        up_in = inputs and all(any(x.kind == "call" and fn.blocks[x.data].term.callee.is_("to_ascii_uppercase")
-                                                   for x in inp) for inp in inputs)
+                        up_in = inputs and all(any(is_upper(fn, x) for x in inp) for inp in inputs)
                         if "SIG" in pieces and up_in:
                             okup = True
                             sig_prefixed += 1
@@ -291,18 +345,7 @@ def run(ctx):
                             facts.fns_matching(r"watchexec_signals::Signal as core::str::traits::FromStr>::from_str$"))
         wcalls = call_sites(fs, "Signal::from_windows_str")
         ctx.require(len(wcalls) == 1, "R19.4", "fromstr-windows-first", "from_str calls from_windows_str first", fs.loc(fs.line))
-        from .. import pathx as _px194
-        top194 = _px194.desc(thir.peel(thir.root(fs)))
-        inner194 = [_px194.desc(thir.peel(thir.root(c))) for c in facts.children(fs) if c.kind == "closure"]
-        ctx.require(top194 == "Result::or_else(Signal::from_windows_str(s), closure)" and any(d.startswith("Result::map_err(Signal::from_unix_str(^s)") for d in inner194), "R19.4",
-                    "fromstr-passes-input", "both parsers get the input string itself", fs.loc(fs.line), detail="%s / %s" % (top194, inner194[:2]),
-                    fail="Signal::from_str hands a rewritten string to one of the two name tables (%s): a prefix-stripped unix name can land on a Windows control name (SIGSTOP -> STOP -> ForceStop)" % top194)
-        ucalls = []
-        for c in [fs] + facts.descendants(fs):
-            ctx.saw_fn(c)
-            ucalls += [(c, bi, t) for bi, t in call_sites(c, "Signal::from_unix_str")]
-        ctx.require(len(ucalls) == 1 and ucalls[0][0] is not fs, "R19.4", "fromstr-unix-fallback",
-                    "from_unix_str is only the or_else fallback", fs.loc(fs.line))
+        fromstr_table(ctx, "R19.4")
     except Skip:
         pass
 
@@ -335,7 +378,8 @@ def run(ctx):
             adts = [(n.get("adt"), n.get("v")) for n in thir.walk(body) if n.get("k") in ("adt",)]
             fnrefs = [n["def"] for n in thir.walk(body) if n.get("k") == "fn"]
             uses_code = any(n.get("k") == "var" and n.get("n") == "code" for n in thir.walk(body))
-            okc = (any("map_or" in c for c in calls) and any("try_from" in c for c in calls) and uses_code
+            # zero -> None -> Success either way: NonZero::try_from(x) (error discarded by map_or) or NonZero::new(x)
+            okc = (any("map_or" in c for c in calls) and any("try_from" in c or ("NonZero" in c and c.endswith("::new")) for c in calls) and uses_code
                    and ("watchexec_events::process::ProcessEnd", "Success") in adts
                    and any(f.endswith("ProcessEnd::ExitError") for f in fnrefs))
         ctx.require(okc, "R19.5", "code-arm", "(Some(code), None, _): NonZero::try_from(code).map_or(Success, ExitError)",
